@@ -98,16 +98,14 @@ pub fn compile(lm: &LinearModel) -> Option<LinearModel> {
     std::panic::catch_unwind(|| Linearizer::linearize(model).ok()).ok().flatten()
 }
 
-fn push_case(lm: &LinearModel, solved: &LinearModel, stream: &str, compiled: bool, out: &mut Vec<Case>) {
+fn push_case(lm: &LinearModel, solved: &LinearModel, stream: &str, compiled: bool, variants: &gen_lp::Variants, out: &mut Vec<Case>) {
     let opts = Opts::default();
     let o = child::solve(SolverKind::Clarabel, solved, &opts, TIMEOUT);
     let res = gen_lp::result(&o);
     let mut c = Case::default();
     c.imp = res.clone();
     if !matches!(o, Outcome::Hang) {
-        if let Some(raw) = gen_lp::clarabel(&child::solve(SolverKind::RawClarabel, solved, &opts, TIMEOUT)) {
-            c.req = format!("clarabel-wrap {} {}", sx::lin_model(solved), raw);
-        }
+        c.req = gen_lp::clarabel_req(solved, &sx::lin_model(solved), variants, TIMEOUT).unwrap_or_default();
     }
     c.oracle = if compiled { format!("shadow-compiled {} {} {}", sx::lin_model(lm), sx::lin_model(solved), res) }
                else { format!("shadow {} {}", sx::lin_model(lm), res) };
@@ -138,20 +136,21 @@ pub fn seeded() -> LinearModel {
 pub fn generate(seed: u64, n: usize, _thorough: bool, _corpus: Option<&str>) -> Vec<Case> {
     let mut r = Rng::new(seed);
     let mut cases = vec![];
+    let variants = &gen_lp::detect_variants();
     let s = seeded();
-    push_case(&s, &s, "seeded-direct", false, &mut cases);
-    if let Some(c) = compile(&s) { push_case(&s, &c, "seeded-compiled", true, &mut cases); }
+    push_case(&s, &s, "seeded-direct", false, variants, &mut cases);
+    if let Some(c) = compile(&s) { push_case(&s, &c, "seeded-compiled", true, variants, &mut cases); }
     for i in 0..n {
         match i % 4 {
-            0 | 1 => { let lm = constructed(&mut r, false); push_case(&lm, &lm, "constructed-direct", false, &mut cases); }
+            0 | 1 => { let lm = constructed(&mut r, false); push_case(&lm, &lm, "constructed-direct", false, variants, &mut cases); }
             2 => {
                 let tight = r.chance(1, 2);
                 let lm = constructed(&mut r, tight);
-                if let Some(c) = compile(&lm) { push_case(&lm, &c, "constructed-compiled", true, &mut cases); }
+                if let Some(c) = compile(&lm) { push_case(&lm, &c, "constructed-compiled", true, variants, &mut cases); }
             }
             _ => {
                 let (lm, _) = gen_lp::model(&mut r, &LpCfg { doms: Doms::Continuous, naming: 1, allow_satisfy: false, feasible_pct: 90, max_vars: 3, max_rows: 4, ..LpCfg::default() });
-                push_case(&lm, &lm, "random-direct", false, &mut cases);
+                push_case(&lm, &lm, "random-direct", false, variants, &mut cases);
             }
         }
     }
